@@ -6,6 +6,7 @@
 mod alloc_probe;
 mod checks;
 mod framework;
+mod proggen;
 mod rng;
 mod world;
 
@@ -104,6 +105,19 @@ fn main() {
                     }
                     println!("outputs={:?}", rt.io().outputs());
                 }
+            }
+        }
+        "gencase" => {
+            // dev helper: print the explicit case for (check, tier, seed, index); with "--src" render a ProgGen project
+            let check = find(&args[2]);
+            let tier = Tier::parse(&args[3]).unwrap_or_else(|| usage());
+            let seed: u64 = args[4].parse().unwrap_or_else(|_| usage());
+            let index: u64 = args[5].parse().unwrap_or_else(|_| usage());
+            let case = framework::generate_case(check, seed, tier, index);
+            if args.get(6).map(String::as_str) == Some("--src") {
+                println!("{}", proggen::render(&case["project"]));
+            } else {
+                println!("{}", serde_json::to_string_pretty(&case).unwrap());
             }
         }
         "replay" => {
